@@ -31,6 +31,8 @@ func runC18(r *engine.Run) {
 	zcnDecimal(r, "AGREE-op")
 	pureAcyclic(r, "PURE-acyclic")
 	constExact(r, "CONST-exact")
+	r.Rule("ERR-range", "a float helper of core/currency (float64 parameter or result) returns one of the package's own errors only behind accepted rejection forms: comparisons against a constant (sign, range, an error tested against nil), math.IsNaN / math.IsInf, or a predicate of the decimal library; a rejection entered through a comparison of two computed values (a round-trip equality) turns amounts whose IEEE result is in range into errors")
+	errRange(r, "ERR-range")
 }
 
 // pureAcyclic: the currency helpers terminate: the static call graph of the
@@ -433,6 +435,10 @@ func floatToUintSafe(facts []engine.Fact, a ssa.Value, unsigned bool) (bool, str
 	limit := two64
 	if !unsigned {
 		limit = constant.Shift(constant.MakeInt64(1), token.SHL, 63)
+	}
+	// a float made from an unsigned integer is neither negative nor NaN
+	if cv, ok := a.(*ssa.Convert); ok && isUnsigned(cv.X.Type()) {
+		notNaN, nonNeg = true, true
 	}
 	for _, ft := range facts {
 		switch ft.Kind {
